@@ -682,7 +682,7 @@ impl Interp {
                 V::Builtin(_) => true,
                 _ => false,
             },
-            "Indexable" => matches!(v, V::List(_) | V::Tuple(_) | V::Str(_) | V::Map(_) | V::Range(Some(_), Some(_), _)) || if matches!(v, V::Range(..)) { return unjudged("unbounded range x Indexable") } else { false },
+            "Indexable" => matches!(v, V::List(_) | V::Tuple(_) | V::Str(_) | V::Map(_)) || if matches!(v, V::Range(..)) { return unjudged("range x Indexable (the guide is silent)") } else { false },
             "Iterable" => matches!(v, V::List(_) | V::Tuple(_) | V::Str(_) | V::Map(_) | V::Range(..) | V::Gen(_)),
             "Iterator" => matches!(v, V::Gen(_)),
             t => v.type_name() == t,
@@ -814,6 +814,9 @@ impl Interp {
                     }
                 };
                 let _ = is_list;
+                if matches!(v, V::List(_)) && ps.iter().any(|p| matches!(p, Pat::Rest(Some(_)))) {
+                    return unjudged("named rest of a list (the guide documents tuples)");
+                }
                 let rest_pos = ps.iter().position(|p| matches!(p, Pat::Rest(_)));
                 match rest_pos {
                     None => {
@@ -862,6 +865,7 @@ impl Interp {
                     }
                     true
                 }
+                V::Null | V::Bool(_) => return unjudged("C03-map-null: map pattern against null/bool raises instead of falling through"),
                 _ => false,
             },
         })
@@ -1385,8 +1389,8 @@ impl Interp {
                         }
                         out
                     }
-                    V::List(_) | V::Tuple(_) | V::Range(Some(_), Some(_), _) => self.iterate(&val)?,
-                    V::Str(_) | V::Map(_) | V::Range(..) => return unjudged("multi-assign from string/map/unbounded range"),
+                    V::List(_) | V::Tuple(_) | V::Range(Some(_), Some(_), _) | V::Str(_) => self.iterate(&val)?,
+                    V::Map(_) | V::Range(..) => return unjudged("multi-assign from map/unbounded range"),
                     other => vec![other.clone()],
                 };
                 for (i, t) in ts.iter().enumerate() {
